@@ -464,7 +464,7 @@ def binop(op, a, b):
             if op == "mod":
                 return a % b
             if op == "pow":
-                if isinstance(b, int) and abs(b) > 4096:
+                if isinstance(b, int) and (abs(b) > 2000000 or (isinstance(a, int) and abs(a) > 2 ** 64 and abs(b) > 4096)):
                     raise ValueError
                 return a ** b
             if op == "band":
@@ -474,7 +474,7 @@ def binop(op, a, b):
             if op == "bxor":
                 return a ^ b
             if op == "shl":
-                if b > 4096:
+                if b > 2000000:
                     raise ValueError
                 return a << b
             if op == "shr":
@@ -706,11 +706,74 @@ def contains(v, pred):
     return any(pred(s) for s in subterms(v))
 
 
+def renorm(op, args, ty):
+    """Rebuild a term through its normalising constructor (used after substitution)."""
+    a = args
+    try:
+        if op == "add":
+            return add(list(a))
+        if op == "mul":
+            return mul(list(a))
+        if op == "cat":
+            return cat(list(a))
+        if op == "scat":
+            return scat(list(a))
+        if op in ("mod", "floordiv", "pow", "band", "bor", "bxor", "shl", "shr", "div"):
+            return binop(op, a[0], a[1])
+        if op == "cmp":
+            return cmp(a[0], a[1], _unfz_shallow(a[2]))
+        if op == "not":
+            return lnot(a[0])
+        if op == "truth":
+            return truth(a[0])
+        if op == "land":
+            return land(list(a))
+        if op == "lor":
+            return lor(list(a))
+        if op == "ite":
+            return ite(a[0], _unfz_shallow(a[1]), _unfz_shallow(a[2]))
+        if op == "i2b":
+            return i2b(a[0], a[1], a[2])
+        if op == "b2i":
+            return b2i(a[0], a[1])
+        if op == "slice":
+            return slc(_unfz_shallow(a[0]), a[1], a[2])
+        if op == "idx":
+            return idx(_unfz_shallow(a[0]), a[1])
+        if op == "len":
+            return length(_unfz_shallow(a[0]))
+        if op == "inrange" and all(isinstance(x, int) and not isinstance(x, bool) for x in a):
+            return a[1] <= a[0] < a[2]
+        if op == "hex":
+            return hexs(a[0])
+        if op == "unhex":
+            return unhex(a[0])
+        if op == "rep":
+            return rep(a[0], a[1])
+        if op == "bitlen" and isinstance(a[0], int):
+            return a[0].bit_length()
+    except (TypeError, ValueError, IndexError):
+        pass
+    return T(op, a, ty)
+
+
+def _unfz_shallow(v):
+    if isinstance(v, tuple) and v and v[0] == "#bool":
+        return v[1]
+    if isinstance(v, tuple) and v and v[0] == "#list":
+        return [_unfz_shallow(x) for x in v[1:]]
+    if isinstance(v, tuple) and v and v[0] == "#tuple":
+        return tuple(_unfz_shallow(x) for x in v[1:])
+    return v
+
+
 def subst(v, f):
-    """Bottom-up rewrite: f(term) -> replacement or None."""
+    """Bottom-up rewrite: f(term) -> replacement or None.  Rebuilt terms are re-normalised."""
     if isinstance(v, T):
-        new = T(v.op, [subst(a, f) for a in v.args], v.ty)
-        r = f(new)
+        newargs = [subst(a, f) for a in v.args]
+        changed = any(not veq(x, y) for x, y in zip(newargs, v.args))
+        new = renorm(v.op, newargs, v.ty) if changed else v
+        r = f(new) if isinstance(new, T) else None
         return new if r is None else r
     if isinstance(v, list):
         return [subst(a, f) for a in v]
